@@ -8,7 +8,7 @@ Open Scope Z_scope.
 Lemma ix_add_unsorted ix r ix' : isorted ix = false -> ix_add ix r = Ok ix' -> isorted ix' = false.
 Proof.
   intros Hs H. unfold ix_add in H.
-  destruct (negb (ix_valid_pos (q_start r)) || negb (ix_valid_pos (q_end r))); [discriminate|].
+  destruct (negb (ix_valid_pos (q_start r)) || negb (ix_valid_pos (q_end r - 1))); [discriminate|].
   destruct (q_placed r); simpl in H; [|inversion H; subst; exact Hs].
   destruct (q_rid r <? 0); [discriminate|]. destruct (q_rid r <? zlen (irefs ix) - 1); [discriminate|].
   destruct (inb _ _); [|discriminate]. unfold chk in H.
